@@ -248,6 +248,13 @@ def run_case(case):
             res = lib(lambda: a.sort_axis(axis=axis, key=f), what=what, sig=sig)
             cl.add("sort_axis:key")
         compare(res, dims, newlabels(pos), take_expected(vals, ax, pos), what, sig, src=a)
+        # the documented parameter order sort_axis(axis, key), given by position, and the module-level function
+        kobj = None if key is None else (dct if key == "dict" else KEYS[key])
+        res = lib(lambda: a.sort_axis(axis, kobj), what=what + " [axis, key by position]", sig=sig)
+        compare(res, dims, newlabels(pos), take_expected(vals, ax, pos), what + " [axis, key by position]", sig, src=a)
+        if hasattr(da, "sort_axis"):
+            res = lib(lambda: da.sort_axis(a, axis, kobj), what=what + " [dimarray.sort_axis(a, axis, key)]", sig=sig)
+            compare(res, dims, newlabels(pos), take_expected(vals, ax, pos), what + " [module-level function]", sig, src=a)
     elif op == "take_axis":
         ind = p["indices"]
         if p["indexing"] == "label":
@@ -260,6 +267,9 @@ def run_case(case):
         arg = list(ind) if p["as"] == "list" else tuple(ind) if p["as"] == "tuple" else (core.label_array(ind) if p["indexing"] == "label" and ind else np.array(ind, dtype=int if p["indexing"] == "position" or not ind else None))
         res = lib(lambda: a.take_axis(arg, axis=axis, indexing=p["indexing"]), what=what, sig=sig)
         compare(res, dims, newlabels(pos), take_expected(vals, ax, pos), what, sig, src=a)
+        # the documented parameter order take_axis(indices, axis, indexing, mode), given by position
+        res = lib(lambda: a.take_axis(arg, axis, p["indexing"], "raise"), what=what + " [arguments by position]", sig=sig)
+        compare(res, dims, newlabels(pos), take_expected(vals, ax, pos), what + " [arguments by position]", sig, src=a)
         cl.add("take_axis:" + p["indexing"])
         if p.get("other_kind"):
             cl.add("take_axis:labels-in-the-other-numeric-kind")
